@@ -25,6 +25,12 @@ type Mutant struct {
 	New      string `json:"new"`
 	Expect   string `json:"expect"` // substring that must occur in a reported finding key/rule
 	Note     string `json:"note,omitempty"`
+	// Rename: a consistent identifier rename over the whole file (gofmt -r 'from -> to'): a behaviour-preserving
+	// edit used as a negative control for name-dependence of the rules.
+	Rename *struct {
+		From string `json:"from"`
+		To   string `json:"to"`
+	} `json:"rename,omitempty"`
 	// Edits allows multi-site variants (two cooperating sites).
 	Edits []struct {
 		File string `json:"file"`
@@ -60,7 +66,7 @@ type mutantResult struct {
 func runOneMutant(exe, vdir, repo string, m Mutant) mutantResult {
 	type ed struct{ file, old, new string }
 	var edits []ed
-	if m.File != "" {
+	if m.File != "" && m.Rename == nil {
 		edits = append(edits, ed{m.File, m.Old, m.New})
 	}
 	for _, e := range m.Edits {
@@ -80,6 +86,16 @@ func runOneMutant(exe, vdir, repo string, m Mutant) mutantResult {
 			return mutantResult{m.ID, "skipped", fmt.Sprintf("old text occurs %d times in %s (tree changed)", strings.Count(cur, e.old), e.file)}
 		}
 		content[e.file] = strings.Replace(cur, e.old, e.new, 1)
+	}
+	if m.Rename != nil {
+		out, err := exec.Command("gofmt", "-r", m.Rename.From+" -> "+m.Rename.To, filepath.Join(repo, m.File)).Output()
+		if err != nil {
+			return mutantResult{m.ID, "skipped", "gofmt -r failed: " + err.Error()}
+		}
+		if string(out) == "" || !strings.Contains(string(out), m.Rename.To) {
+			return mutantResult{m.ID, "skipped", "identifier " + m.Rename.From + " not found (tree changed)"}
+		}
+		content[m.File] = string(out)
 	}
 	var args []string
 	args = append(args, "check", "-property", m.Property, "-repo", repo, "-no-evidence")
